@@ -429,6 +429,15 @@ def features(ws: WS, fn: str) -> List[str]:
         tags.add("import-as")
     if len(fs) - 1 > nimp:
         tags.add("transitive-imports")
+    edges: Dict[str, int] = {}
+    for f in fs:
+        for m in re.finditer(r'^\s*import (?:\w+ )?"([^"]+)"', ws.files[f], re.M):
+            t = os.path.normpath(os.path.join(os.path.dirname(f), m.group(1)))
+            edges[t] = edges.get(t, 0) + 1
+    if any(v > 1 for v in edges.values()):
+        tags.add("diamond-import")
+    if any("/" in f for f in fs) or "/" in fn:
+        tags.add("subdirectory-import")
     for m in re.finditer(r"enum \w+ : uint\d+ \{(.*?)\}", tx, re.S):
         vals = [int(v) for v in re.findall(r"^\s*\w+ = (\d+)", m.group(1), re.M)]
         if vals != sorted(vals):
@@ -891,8 +900,8 @@ def _ws_files(wss: List[WS]) -> Dict[str, str]:
 
 SIZES = {
     # random ws, special ws (each gets a twin), random twins, optional -O configs per target, variants per unit, schedules, schedule length
-    "quick": dict(n_random=8, n_special=2, n_rtwin=3, nopt=2, nvar=2, n_sched=36, sched_len=20),
-    "thorough": dict(n_random=44, n_special=14, n_rtwin=12, nopt=2, nvar=3, n_sched=400, sched_len=30),
+    "quick": dict(n_random=8, n_special=3, n_rtwin=3, nopt=2, nvar=2, n_sched=44, sched_len=20),
+    "thorough": dict(n_random=56, n_special=18, n_rtwin=14, nopt=2, nvar=3, n_sched=560, sched_len=30),
 }
 
 
